@@ -76,6 +76,7 @@ pub fn run(engine: &str, toks: Vec<Tok>) -> Vec<Tok> {
         "c16_gone" => c16f::gone(toks),
         "c18_session" => c18::session(toks),
         "c18_rp" => c18rp::run(toks),
+        "c18_rp_refusal" => c18rp::refusal(toks),
         "c18_dl" => c18dl::run(toks),
         "c12_extract" => c12::extract(toks),
         "c12_peek" => c12::peek(toks),
